@@ -14,8 +14,12 @@
 -/
 import MantraDex.Model.System
 import MantraDex.Proofs.NumLemmas
+import MantraDex.Proofs.ProvideLemmas
+import MantraDex.Proofs.HandlerLemmas
+import MantraDex.Properties.C04
 
 set_option linter.unusedSimpArgs false
+set_option linter.unusedVariables false
 
 namespace MantraDex.C01
 open MantraDex
@@ -44,17 +48,424 @@ def outflow (self : Addr) (tfFees : List Coin) (msgs : List SubMsg) (d : Denom) 
 def WF (s : PmState) : Prop :=
   (s.pools.map (·.id)).Nodup ∧ ∀ p ∈ s.pools, (p.assets.map (·.denom)).Nodup
 
+/-! ### sums -/
+theorem foldl_add (xs : List Nat) (a : Nat) : xs.foldl (· + ·) a = a + sumNat xs := by
+  unfold sumNat
+  induction xs generalizing a with
+  | nil => simp
+  | cons x xs ih =>
+    simp only [List.foldl_cons]
+    rw [ih, ih (0 + x)]
+    omega
+
+@[simp] theorem sumNat_nil : sumNat [] = 0 := rfl
+@[simp] theorem sumNat_cons (a : Nat) (xs : List Nat) : sumNat (a :: xs) = a + sumNat xs := by
+  show (a :: xs).foldl (· + ·) 0 = _
+  rw [List.foldl_cons, foldl_add]; omega
+@[simp] theorem sumNat_append (xs ys : List Nat) : sumNat (xs ++ ys) = sumNat xs + sumNat ys := by
+  induction xs with
+  | nil => simp
+  | cons x xs ih => simp [ih]; omega
+
+/-- contribution of one coin to denom `d` -/
+def amt (c : Coin) (d : Denom) : Nat := if c.denom == d then c.amount else 0
+
+@[simp] theorem coinsOf_nil (d : Denom) : coinsOf [] d = 0 := rfl
+theorem coinsOf_cons (c : Coin) (cs : List Coin) (d : Denom) :
+    coinsOf (c :: cs) d = amt c d + coinsOf cs d := by
+  unfold coinsOf amt
+  by_cases h : (c.denom == d) = true
+  · simp [List.filter_cons, h]
+  · simp [List.filter_cons, h]
+theorem coinsOf_append (xs ys : List Coin) (d : Denom) :
+    coinsOf (xs ++ ys) d = coinsOf xs d + coinsOf ys d := by
+  induction xs with
+  | nil => simp
+  | cons x xs ih => simp only [List.cons_append, coinsOf_cons, ih]; omega
+theorem coinsOf_singleton (c : Coin) (d : Denom) : coinsOf [c] d = amt c d := by
+  rw [coinsOf_cons]; simp
+
+/-! ### `setAmount` -/
+theorem setAmount_nil (i a : Nat) : setAmount [] i a = [] := rfl
+theorem setAmount_zero (c : Coin) (cs : List Coin) (a : Nat) :
+    setAmount (c :: cs) 0 a = { c with amount := a } :: cs := by
+  apply List.ext_getElem?
+  intro j
+  rw [C04.getElem?_setAmount]
+  cases j with
+  | zero => simp
+  | succ j =>
+    simp only [List.getElem?_cons_succ]
+    cases cs[j]? <;> simp
+theorem setAmount_succ (c : Coin) (cs : List Coin) (i a : Nat) :
+    setAmount (c :: cs) (i + 1) a = c :: setAmount cs i a := by
+  apply List.ext_getElem?
+  intro j
+  rw [C04.getElem?_setAmount]
+  cases j with
+  | zero => simp
+  | succ j =>
+    simp only [List.getElem?_cons_succ, C04.getElem?_setAmount]
+    cases cs[j]? <;> simp
+
+theorem coinsOf_setAmount {cs : List Coin} {i : Nat} {c : Coin} (a : Nat) (d : Denom)
+    (h : cs[i]? = some c) :
+    coinsOf (setAmount cs i a) d + amt c d = coinsOf cs d + (if c.denom == d then a else 0) := by
+  induction cs generalizing i with
+  | nil => simp at h
+  | cons x xs ih =>
+    cases i with
+    | zero =>
+      simp only [List.getElem?_cons_zero, Option.some.injEq] at h
+      subst h
+      rw [setAmount_zero, coinsOf_cons, coinsOf_cons]
+      simp only [amt]
+      omega
+    | succ i =>
+      simp only [List.getElem?_cons_succ] at h
+      rw [setAmount_succ, coinsOf_cons, coinsOf_cons]
+      have := ih h
+      omega
+
+theorem setAmount_denoms (cs : List Coin) (i a : Nat) :
+    (setAmount cs i a).map (·.denom) = cs.map (·.denom) := by
+  induction cs generalizing i with
+  | nil => rfl
+  | cons x xs ih =>
+    cases i with
+    | zero => rw [setAmount_zero]; rfl
+    | succ i => rw [setAmount_succ]; simp [ih]
+
+
+/-! ### `savePool` and reserves -/
+
+theorem getPool_ok {s : PmState} {pid : String} {p : PoolInfo} (h : s.getPool pid = .ok p) :
+    s.pools.find? (·.id == pid) = some p := by
+  unfold PmState.getPool at h
+  split at h
+  · cases h; assumption
+  · cases h
+
+theorem map_replace_sum (f : PoolInfo → Nat) {pools : List PoolInfo} {pid : String} {p p' : PoolInfo}
+    (hnd : (pools.map (·.id)).Nodup) (hf : pools.find? (·.id == pid) = some p) (hid : p'.id = p.id) :
+    sumNat ((pools.map fun q => if q.id == p'.id then p' else q).map f) + f p =
+      sumNat (pools.map f) + f p' := by
+  induction pools with
+  | nil => simp at hf
+  | cons q rest ih =>
+    simp only [List.map_cons, List.nodup_cons] at hnd
+    simp only [List.find?_cons] at hf
+    by_cases hq : (q.id == pid) = true
+    · simp only [hq] at hf
+      cases hf
+      have hrest : (rest.map fun q' => if q'.id == p'.id then p' else q') = rest := by
+        have : ∀ q' ∈ rest, (if q'.id == p'.id then p' else q') = q' := by
+          intro q' hq'
+          have : ¬ (q'.id == p'.id) = true := by
+            intro he
+            have : q'.id = p.id := by rw [← hid]; simpa using he
+            exact hnd.1 (this ▸ List.mem_map_of_mem hq')
+          simp [this]
+        calc (rest.map fun q' => if q'.id == p'.id then p' else q') = rest.map id :=
+              List.map_congr_left this
+          _ = rest := List.map_id _
+      have hqq : (p.id == p'.id) = true := by simp [hid]
+      simp only [List.map_cons, hqq, if_true, hrest, sumNat_cons]
+      omega
+    · have hq' : (q.id == pid) = false := by simpa using hq
+      simp only [hq'] at hf
+      have hpid : p.id = pid := by
+        have := List.find?_some hf
+        simpa using this
+      have hqq : (q.id == p'.id) = false := by
+        rw [hid, hpid]; exact hq'
+      simp only [List.map_cons, hqq, Bool.false_eq_true, if_false, sumNat_cons]
+      have := ih hnd.2 hf
+      omega
+
+theorem savePool_existing {s : PmState} {pid : String} {p p' : PoolInfo}
+    (hp : s.getPool pid = .ok p) (hid : p'.id = p.id) :
+    (s.savePool p').pools = s.pools.map fun q => if q.id == p'.id then p' else q := by
+  have hf := getPool_ok hp
+  have hmem := List.mem_of_find?_eq_some hf
+  unfold PmState.savePool
+  have : s.pools.any (·.id == p'.id) = true := by
+    rw [List.any_eq_true]
+    exact ⟨p, hmem, by simp [hid]⟩
+  simp [this]
+
+theorem reserves_savePool {s : PmState} {pid : String} {p p' : PoolInfo}
+    (hnd : (s.pools.map (·.id)).Nodup) (hp : s.getPool pid = .ok p) (hid : p'.id = p.id) (d : Denom) :
+    reserves (s.savePool p') d + coinsOf p.assets d = reserves s d + coinsOf p'.assets d := by
+  unfold reserves
+  rw [savePool_existing hp hid]
+  exact map_replace_sum (fun q => coinsOf q.assets d) hnd (getPool_ok hp) hid
+
+theorem savePool_ids {s : PmState} {pid : String} {p p' : PoolInfo}
+    (hp : s.getPool pid = .ok p) (hid : p'.id = p.id) :
+    (s.savePool p').pools.map (·.id) = s.pools.map (·.id) := by
+  rw [savePool_existing hp hid, List.map_map]
+  apply List.map_congr_left
+  intro q _
+  simp only [Function.comp]
+  split
+  · rename_i h; simpa using (beq_iff_eq.mp h).symm
+  · rfl
+
+theorem insertPoolSorted_sum (f : PoolInfo → Nat) (p : PoolInfo) (pools : List PoolInfo) :
+    sumNat ((insertPoolSorted p pools).map f) = sumNat (pools.map f) + f p := by
+  induction pools with
+  | nil => simp [insertPoolSorted]
+  | cons q rest ih =>
+    unfold insertPoolSorted
+    split
+    · simp; omega
+    · simp [ih]; omega
+
+theorem reserves_savePool_new {s : PmState} {p : PoolInfo}
+    (hnew : s.pools.any (·.id == p.id) = false) (d : Denom) :
+    reserves (s.savePool p) d = reserves s d + coinsOf p.assets d := by
+  unfold reserves PmState.savePool
+  simp only [hnew, Bool.false_eq_true, if_false]
+  exact insertPoolSorted_sum (fun q => coinsOf q.assets d) p s.pools
+
+
+/-! ### outflow of message lists -/
+
+def mk (m : Msg) : SubMsg := { msg := m }
+
+@[simp] theorem outflow_nil (self : Addr) (tf : List Coin) (d : Denom) : outflow self tf [] d = 0 := rfl
+theorem outflow_cons (self : Addr) (tf : List Coin) (sm : SubMsg) (rest : List SubMsg) (d : Denom) :
+    outflow self tf (sm :: rest) d = outflow self tf [sm] d + outflow self tf rest d := by
+  simp [outflow]
+theorem outflow_append (self : Addr) (tf : List Coin) (xs ys : List SubMsg) (d : Denom) :
+    outflow self tf (xs ++ ys) d = outflow self tf xs d + outflow self tf ys d := by
+  simp [outflow]
+
+theorem amt_zero (dn : Denom) (d : Denom) : amt ⟨dn, 0⟩ d = 0 := by simp [amt]
+
+theorem outflow_optSend (self : Addr) (tf : List Coin) (to : Addr) (dn : Denom) (a : Nat) (d : Denom) :
+    outflow self tf ((if a ≠ 0 then [Msg.bankSend to [⟨dn, a⟩]] else []).map (fun m => ({ msg := m } : SubMsg))) d
+      = amt ⟨dn, a⟩ d := by
+  by_cases h : a = 0
+  · subst h; simp [amt_zero]
+  · simp [h, outflow, coinsOf_singleton]
+
+theorem outflow_optBurn (self : Addr) (tf : List Coin) (dn : Denom) (a : Nat) (d : Denom) :
+    outflow self tf ((if a ≠ 0 then [Msg.bankBurn [⟨dn, a⟩]] else []).map (fun m => ({ msg := m } : SubMsg))) d
+      = amt ⟨dn, a⟩ d := by
+  by_cases h : a = 0
+  · subst h; simp [amt_zero]
+  · simp [h, outflow, coinsOf_singleton]
+
+/-! ### swaps -/
+
+theorem performSwap_reserves {s s' : PmState} {offer : Coin} {ask : Denom} {pid : String}
+    {b ms : Option Nat} {r : SwapResult} (hnd : (s.pools.map (·.id)).Nodup)
+    (h : performSwap s offer ask pid b ms = .ok (s', r)) :
+    s'.pools.map (·.id) = s.pools.map (·.id) ∧
+    ∃ ret pf bf, r.ret = ⟨ask, ret⟩ ∧ r.protocolFee = ⟨ask, pf⟩ ∧ r.burnFee = ⟨ask, bf⟩ ∧
+      ∀ d, reserves s' d + amt ⟨ask, ret⟩ d + amt ⟨ask, bf⟩ d + amt ⟨ask, pf⟩ d =
+        reserves s d + amt offer d := by
+  obtain ⟨pool, c, oi, ai, x, y, hp, -, -, -, hne, hoi, hai, hle, hrp, hs', hret, hpf, hbf, -, -⟩ :=
+    C04.performSwap_ok h
+  have hid : r.pool.id = pool.id := by rw [hrp]
+  refine ⟨by rw [hs']; exact savePool_ids hp hid, c.ret, c.protocolFee, c.burnFee, hret, hpf, hbf, ?_⟩
+  intro d
+  have h0 := reserves_savePool hnd hp hid d
+  rw [← hs'] at h0
+  have hassets : r.pool.assets = C04.assetsAfterSwap pool.assets oi ai x y offer.amount c := by rw [hrp]
+  rw [hassets] at h0
+  unfold C04.assetsAfterSwap at h0
+  have h1 := coinsOf_setAmount (x + offer.amount) d hoi
+  have hai' : (setAmount pool.assets oi (x + offer.amount))[ai]? = some ⟨ask, y⟩ := by
+    rw [C04.getElem?_setAmount, hai]
+    have : (ai == oi) = false := by simpa using fun e => hne e.symm
+    simp [this]
+  have h2 := coinsOf_setAmount (y - c.ret - (c.protocolFee + c.burnFee)) d hai'
+  simp only [amt] at h1 h2 ⊢
+  by_cases ho : (offer.denom == d) = true <;> by_cases ha : (ask == d) = true <;>
+    simp only [ho, ha, if_true, if_false, Bool.false_eq_true] at h1 h2 ⊢ <;> omega
+
+
 theorem swap_conserves {s s' : PmState} {env : PmEnv} {sender : Addr} {funds : List Coin}
     {ask : Denom} {b ms : Option Nat} {recv : Option Addr} {pid : String} {r : Response}
     (hwf : WF s) (h : swapHandler s env sender funds ask b ms recv pid = .ok (s', r)) :
     ∀ d, reserves s' d + outflow env.self env.tfFees r.msgs d = reserves s d + coinsOf funds d := by
-  sorry
+  obtain ⟨offer, sr, rfl, hps, hmsgs⟩ := C04.swapHandler_messages h
+  obtain ⟨-, ret, pf, bf, hret, hpf, hbf, hres⟩ := performSwap_reserves hwf.1 hps
+  intro d
+  rw [hmsgs, hret, hpf, hbf]
+  dsimp only
+  rw [List.map_append, List.map_append, outflow_append, outflow_append,
+    outflow_optSend, outflow_optBurn, outflow_optSend, coinsOf_singleton]
+  have := hres d
+  omega
+
+theorem routeHops_reserves {self : Addr} {tf : List Coin} {s s' : PmState} {ms : Option Nat}
+    {ops : List SwapOp} {prev out : Coin} {fees fees' : List Msg}
+    (hnd : (s.pools.map (·.id)).Nodup)
+    (h : routeHops s ms ops prev fees = .ok (s', out, fees')) :
+    (∀ last, ops.getLast? = some last → out.denom = last.tokenOut) ∧
+    ∀ d, reserves s' d + outflow self tf (fees'.map (fun m => ({ msg := m } : SubMsg))) d + amt out d =
+      reserves s d + outflow self tf (fees.map (fun m => ({ msg := m } : SubMsg))) d + amt prev d := by
+  induction ops generalizing s prev fees with
+  | nil =>
+    rw [routeHops] at h
+    simp only [Except.ok.injEq, Prod.mk.injEq] at h
+    obtain ⟨rfl, rfl, rfl⟩ := h
+    exact ⟨by simp, fun d => rfl⟩
+  | cons op ops ih =>
+    obtain ⟨s1, r, hps, h⟩ := C04.routeHops_cons h
+    obtain ⟨hids, ret, pf, bf, hret, hpf, hbf, hres⟩ := performSwap_reserves hnd hps
+    obtain ⟨hlast, hrest⟩ := ih (hids ▸ hnd) h
+    constructor
+    · intro last hl
+      cases ops with
+      | nil =>
+        rw [routeHops] at h
+        simp only [Except.ok.injEq, Prod.mk.injEq] at h
+        obtain ⟨-, rfl, -⟩ := h
+        simp only [List.getLast?_singleton, Option.some.injEq] at hl
+        subst hl
+        rw [hret]
+      | cons op2 ops2 =>
+        apply hlast
+        rw [← hl, List.getLast?_cons_cons]
+    · intro d
+      have h1 := hrest d
+      have h2 := hres d
+      rw [hbf, hpf, hret] at h1
+      dsimp only at h1
+      rw [List.map_append, List.map_append, outflow_append, outflow_append,
+        outflow_optBurn, outflow_optSend] at h1
+      omega
 
 theorem route_conserves {s s' : PmState} {env : PmEnv} {sender : Addr} {funds : List Coin}
     {ops : List SwapOp} {mr : Option Nat} {recv : Option Addr} {ms : Option Nat} {r : Response}
     (hwf : WF s) (h : execSwapOps s env sender funds ops mr recv ms = .ok (s', r)) :
     ∀ d, reserves s' d + outflow env.self env.tfFees r.msgs d = reserves s d + coinsOf funds d := by
-  sorry
+  obtain ⟨first, last, amount, out, fm, -, hl, rfl, hroute, hmsgs⟩ := execSwapOps_ok h
+  obtain ⟨hlast, hres⟩ := routeHops_reserves (self := env.self) (tf := env.tfFees) hwf.1 hroute
+  intro d
+  have h1 := hres d
+  have hd := hlast last hl
+  rw [hmsgs, List.map_append, outflow_append, outflow_optSend, coinsOf_singleton]
+  simp only [List.map_nil, outflow_nil] at h1
+  have : amt out d = amt ⟨last.tokenOut, out.amount⟩ d := by simp [amt, hd]
+  omega
+
+
+/-! ### withdraw / deposit folds -/
+
+theorem withdrawStep_coins {as as1 : List Coin} {r : Coin} (h : withdrawStep as r = .ok as1) (d : Denom) :
+    coinsOf as1 d + amt r d = coinsOf as d := by
+  unfold withdrawStep at h
+  cases hi : findIdx (fun c : Coin => c.denom == r.denom) as with
+  | none => rw [hi] at h; simp only [↓err_bind_ok] at h
+  | some i =>
+    rw [hi] at h
+    simp only [↓pure_bind', ↓bind_ok, pure_ok, C04.getD?_ok, ckSub_ok] at h
+    obtain ⟨_, rfl, c, hc, a, ⟨hle, rfl⟩, rfl⟩ := h
+    obtain ⟨c', hc', hd⟩ := C04.findIdx_some hi
+    rw [hc] at hc'; cases hc'
+    have hden : c.denom = r.denom := by simpa using hd
+    have := coinsOf_setAmount (c.amount - r.amount) d hc
+    simp only [amt, hden] at this ⊢
+    by_cases hdd : (r.denom == d) = true <;>
+      simp only [hdd, if_true, if_false, Bool.false_eq_true] at this ⊢ <;> omega
+
+theorem withdrawFold_coins {refunds as as' : List Coin} (h : refunds.foldlM withdrawStep as = .ok as')
+    (d : Denom) : coinsOf as' d + coinsOf refunds d = coinsOf as d := by
+  induction refunds generalizing as with
+  | nil =>
+    simp only [List.foldlM_nil, pure_ok] at h
+    subst h; simp
+  | cons r rest ih =>
+    simp only [List.foldlM_cons] at h
+    obtain ⟨as1, h1, h⟩ := bind_ok.mp h
+    have := ih h
+    have := withdrawStep_coins h1 d
+    rw [coinsOf_cons]
+    omega
+
+theorem depositStep_coins {as as1 : List Coin} {r : Coin} (h : depositStep as r = .ok as1) (d : Denom) :
+    coinsOf as1 d = coinsOf as d + amt r d := by
+  unfold depositStep at h
+  cases hi : findIdx (fun c : Coin => c.denom == r.denom) as with
+  | none => rw [hi] at h; simp only [↓err_bind_ok] at h
+  | some i =>
+    rw [hi] at h
+    simp only [↓pure_bind', ↓bind_ok, pure_ok, C04.getD?_ok, ckAdd_ok] at h
+    obtain ⟨_, rfl, c, hc, a, ⟨hle, rfl⟩, rfl⟩ := h
+    obtain ⟨c', hc', hd⟩ := C04.findIdx_some hi
+    rw [hc] at hc'; cases hc'
+    have hden : c.denom = r.denom := by simpa using hd
+    have := coinsOf_setAmount (c.amount + r.amount) d hc
+    simp only [amt, hden] at this ⊢
+    by_cases hdd : (r.denom == d) = true <;>
+      simp only [hdd, if_true, if_false, Bool.false_eq_true] at this ⊢ <;> omega
+
+theorem depositFold_coins {deps as as' : List Coin} (h : deps.foldlM depositStep as = .ok as')
+    (d : Denom) : coinsOf as' d = coinsOf as d + coinsOf deps d := by
+  induction deps generalizing as with
+  | nil =>
+    simp only [List.foldlM_nil, pure_ok] at h
+    subst h; simp
+  | cons r rest ih =>
+    simp only [List.foldlM_cons] at h
+    obtain ⟨as1, h1, h⟩ := bind_ok.mp h
+    have := ih h
+    have := depositStep_coins h1 d
+    rw [coinsOf_cons]
+    omega
+
+theorem insertCoin_coins {c : Coin} {xs r : List Coin} (h : insertCoin c xs = .ok r) (d : Denom) :
+    coinsOf r d = coinsOf xs d + amt c d := by
+  induction xs generalizing r with
+  | nil =>
+    simp only [insertCoin, pure_ok] at h
+    subst h
+    rw [coinsOf_singleton]; simp
+  | cons x xs ih =>
+    unfold insertCoin at h
+    split at h
+    · rename_i heq
+      simp only [↓bind_ok, pure_ok, ckAdd_ok] at h
+      obtain ⟨_, ⟨_, rfl⟩, rfl⟩ := h
+      have hden : c.denom = x.denom := by simpa using heq
+      rw [coinsOf_cons, coinsOf_cons]
+      simp only [amt, hden]
+      split <;> omega
+    · split at h
+      · simp only [pure_ok] at h
+        subst h
+        rw [coinsOf_cons]; omega
+      · obtain ⟨r', hr', h⟩ := bind_ok.mp h
+        simp only [pure_ok] at h
+        subst h
+        rw [coinsOf_cons, coinsOf_cons, ih hr']
+        omega
+
+theorem aggregateCoins_coins {cs r : List Coin} (h : aggregateCoins cs = .ok r) (d : Denom) :
+    coinsOf r d = coinsOf cs d := by
+  have key : ∀ (cs acc r : List Coin), cs.foldlM (fun acc c => insertCoin c acc) acc = .ok r →
+      coinsOf r d = coinsOf acc d + coinsOf cs d := by
+    intro cs
+    induction cs with
+    | nil =>
+      intro acc r h
+      simp only [List.foldlM_nil, pure_ok] at h
+      subst h; simp
+    | cons c cs ih =>
+      intro acc r h
+      simp only [List.foldlM_cons] at h
+      obtain ⟨a1, h1, h⟩ := bind_ok.mp h
+      rw [ih _ _ h, insertCoin_coins h1, coinsOf_cons]
+      omega
+  have := key cs [] r h
+  simpa using this
+
 
 /-- withdrawal: for every pool asset the reserves drop by exactly what is sent to the sender (the
     LP token itself is received and burned) -/
@@ -63,7 +474,25 @@ theorem withdraw_conserves {s s' : PmState} {env : PmEnv} {sender : Addr} {funds
     (h : withdrawLiquidity s env sender funds pid = .ok (s', r)) :
     ∀ d, d ≠ pool.lpDenom →
       reserves s' d + outflow env.self env.tfFees r.msgs d = reserves s d + coinsOf funds d := by
-  sorry
+  intro d hd
+  obtain ⟨pool', amount, refunds, assets', hp', rfl, hfold, rfl, hmsgs⟩ := withdraw_ok h
+  rw [hp] at hp'; cases hp'
+  have h0 := reserves_savePool (p' := { pool with assets := assets' }) hwf.1 hp rfl d
+  have h1 := withdrawFold_coins hfold d
+  have hne : (pool.lpDenom == d) = false := by simpa using fun e => hd e.symm
+  rw [hmsgs, coinsOf_singleton]
+  simp only [List.map_cons, List.map_nil, outflow, sumNat_cons, sumNat_nil, amt, hne,
+    Bool.false_eq_true, if_false] at h0 ⊢
+  omega
+
+theorem outflow_mints (self : Addr) (tf : List Coin) (ms : List Msg) (d : Denom)
+    (h : ∀ m ∈ ms, IsMint m) : outflow self tf (ms.map (fun m => ({ msg := m } : SubMsg))) d = 0 := by
+  induction ms with
+  | nil => rfl
+  | cons m rest ih =>
+    rw [List.map_cons, outflow_cons, ih (fun m' hm' => h m' (List.mem_cons_of_mem _ hm'))]
+    obtain ⟨c, a, rfl⟩ := h m (List.mem_cons_self ..)
+    simp [outflow]
 
 /-- multi-asset deposit: every deposited coin is added to the reserves, nothing but LP leaves -/
 theorem provide_multi_conserves {s s' : PmState} {env : PmEnv} {sender : Addr} {funds : List Coin}
@@ -73,7 +502,30 @@ theorem provide_multi_conserves {s s' : PmState} {env : PmEnv} {sender : Addr} {
     (h : provideLiquidity s env sender funds ls ss recv pid u l = .ok (s', r)) :
     ∀ d, d ≠ pool.lpDenom →
       reserves s' d + outflow env.self env.tfFees r.msgs d = reserves s d + coinsOf funds d := by
-  sorry
+  intro d hd
+  obtain ⟨deps, hagg, -⟩ := pl_agg h
+  have hlen : deps.length ≠ 1 := by rw [aggregateCoins_length hfunds hagg]; omega
+  obtain ⟨pool', sh, m0, hp', hm0, ht⟩ := pl_multi hagg hlen h
+  rw [hp] at hp'; cases hp'
+  obtain ⟨assets', m1, hfold, rfl, hmsgs, hm1, -, -⟩ := plTail_ok ht
+  have h0 := reserves_savePool (p' := { pool with assets := assets' }) hwf.1 hp rfl d
+  have h1 := depositFold_coins hfold d
+  have h2 := aggregateCoins_coins hagg d
+  have hne : (pool.lpDenom == d) = false := by simpa using fun e => hd e.symm
+  have hout1 : outflow env.self env.tfFees (m1.map (fun m => ({ msg := m } : SubMsg))) d = 0 := by
+    clear hmsgs ht
+    induction m1 with
+    | nil => rfl
+    | cons m rest ih =>
+      rw [List.map_cons, outflow_cons, ih (fun m' hm' => hm1 m' (List.mem_cons_of_mem _ hm'))]
+      rcases hm1 m (List.mem_cons_self ..) with ⟨c, a, rfl⟩ | ⟨cm, rfl⟩
+      · simp [outflow]
+      · simp only [outflow, List.map_cons, List.map_nil, sumNat_cons, sumNat_nil, coinsOf_singleton, amt, hne,
+          Bool.false_eq_true, if_false]
+        split <;> rfl
+  rw [hmsgs, List.map_append, outflow_append, outflow_mints _ _ _ _ hm0, hout1]
+  simp only at h0
+  omega
 
 /-- single-asset deposit, first leg: the reserves are untouched, half of the deposit is forwarded to
     the inner swap (a self-call) and the rest — including the odd unit — waits in the contract -/
@@ -84,29 +536,477 @@ theorem single_first_leg_conserves {s s' : PmState} {env : PmEnv} {sender : Addr
     ∃ buf, s'.buffer = some buf ∧ buf.offerHalf = ⟨c.denom, c.amount / 2⟩ ∧
       r.msgs = [{ msg := .wasmExec env.self (.pm (.swap buf.expectedAsk.denom none ss none pid)) [buf.offerHalf],
                   replyOn := .success, id := C.SINGLE_SIDE_REPLY_ID }] := by
-  sorry
+  obtain ⟨pool', ask, sim, -, -, -, -, -, hs, hr⟩ := pl_single (agg_single c) h
+  refine ⟨by rw [hs], ?_, _, by rw [hs], rfl, hr⟩
+  intro d
+  rw [hr]
+  simp [outflow]
 
-/-- pool creation keeps nothing: the creation fee is forwarded, the token-factory fee is consumed -/
-theorem create_pool_conserves {s s' : PmState} {env : PmEnv} {funds : List Coin} {denoms : List Denom}
-    {decimals : List Nat} {fees : PoolFee} {pt : PoolType} {id : Option String} {r : Response}
-    (hwf : WF s) (htf : (env.tfFees.map (·.denom)).Nodup) (hfunds : (funds.map (·.denom)).Nodup)
-    (h : createPool s env funds denoms decimals fees pt id = .ok (s', r)) :
-    ∀ d, reserves s' d = reserves s d ∧ outflow env.self env.tfFees r.msgs d = coinsOf funds d := by
-  sorry
 
-/-- configuration / ownership messages move nothing -/
-theorem config_conserves {s s' : PmState} {env : PmEnv} {sender : Addr} {funds : List Coin}
-    {m : PmMsg} {r : Response}
-    (hm : (∃ fc fm fee t, m = .updateConfig fc fm fee t) ∨ (∃ a, m = .updateOwnership a))
-    (h : pmExecute s env sender funds m = .ok (s', r)) :
-    funds = [] ∧ r.msgs = [] ∧ ∀ d, reserves s' d = reserves s d := by
-  sorry
+/-! ### bank -/
+
+theorem coinsOf_filter_nonzero (cs : List Coin) (d : Denom) :
+    coinsOf (cs.filter (·.amount ≠ 0)) d = coinsOf cs d := by
+  induction cs with
+  | nil => rfl
+  | cons c cs ih =>
+    by_cases h : c.amount = 0
+    · have : (decide (c.amount ≠ 0)) = false := by simp [h]
+      rw [List.filter_cons, this]
+      simp only [Bool.false_eq_true, if_false]
+      rw [coinsOf_cons, ih]
+      simp [amt, h]
+    · have : (decide (c.amount ≠ 0)) = true := by simp [h]
+      rw [List.filter_cons, this]
+      simp only [if_true]
+      rw [coinsOf_cons, coinsOf_cons, ih]
+
+theorem normalizeCoins_ok {cs r : List Coin} (h : normalizeCoins cs = .ok r) :
+    r = cs.filter (·.amount ≠ 0) := by
+  unfold normalizeCoins at h
+  simp only at h
+  split at h
+  · cases h
+  · cases h; rfl
+
+theorem subFold_bal {a : Addr} (cs : List Coin) {b b' : Bank}
+    (h : cs.foldlM (fun b c => b.subCoin a c) b = .ok b') (d : Denom) :
+    b'.bal a d + coinsOf cs d = b.bal a d ∧ ∀ a', a' ≠ a → b'.bal a' d = b.bal a' d := by
+  induction cs generalizing b with
+  | nil =>
+    simp only [List.foldlM_nil, pure_ok] at h
+    subst h; simp
+  | cons c cs ih =>
+    simp only [List.foldlM_cons] at h
+    obtain ⟨b1, h1, h⟩ := bind_ok.mp h
+    obtain ⟨ih1, ih2⟩ := ih h
+    unfold Bank.subCoin at h1
+    split at h1
+    · rename_i hle
+      cases h1
+      simp only at ih1 ih2
+      rw [coinsOf_cons]
+      constructor
+      · by_cases hd : d = c.denom
+        · subst hd
+          simp only [amt, beq_self_eq_true, if_true, and_self] at ih1 ⊢
+          omega
+        · have : (c.denom == d) = false := by simpa using fun e => hd e.symm
+          simp only [amt, this, hd, and_false, if_false, Bool.false_eq_true] at ih1 ⊢
+          omega
+      · intro a' ha'
+        rw [ih2 a' ha']
+        simp [ha']
+    · cases h1
+
+theorem addFold_bal {a : Addr} (cs : List Coin) (b : Bank) (d : Denom) :
+    (cs.foldl (fun b c => b.addCoin a c) b).bal a d = b.bal a d + coinsOf cs d ∧
+    ∀ a', a' ≠ a → (cs.foldl (fun b c => b.addCoin a c) b).bal a' d = b.bal a' d := by
+  induction cs generalizing b with
+  | nil => simp
+  | cons c cs ih =>
+    simp only [List.foldl_cons]
+    obtain ⟨ih1, ih2⟩ := ih (b.addCoin a c)
+    rw [coinsOf_cons]
+    constructor
+    · rw [ih1]
+      unfold Bank.addCoin
+      by_cases hd : d = c.denom
+      · subst hd
+        simp only [amt, beq_self_eq_true, if_true, and_self]
+        omega
+      · have : (c.denom == d) = false := by simpa using fun e => hd e.symm
+        simp only [amt, this, hd, and_false, if_false, Bool.false_eq_true]
+        omega
+    · intro a' ha'
+      rw [ih2 a' ha']
+      simp [Bank.addCoin, ha']
 
 /-- bank: a send moves exactly the listed coins from the sender to the recipient -/
 theorem bank_send_effect {b b' : Bank} {frm to : Addr} {cs : List Coin} (hne : frm ≠ to)
     (hcs : (cs.map (·.denom)).Nodup) (h : b.send frm to cs = .ok b') :
     ∀ d, b'.bal frm d + coinsOf cs d = b.bal frm d ∧ b'.bal to d = b.bal to d + coinsOf cs d ∧
       ∀ a, a ≠ frm → a ≠ to → b'.bal a d = b.bal a d := by
-  sorry
+  intro d
+  unfold Bank.send at h
+  obtain ⟨b1, h1, h⟩ := bind_ok.mp h
+  obtain ⟨b2, h2, h⟩ := bind_ok.mp h
+  have hb1 : b1.bal = b.bal := by
+    unfold Bank.tick at h1
+    simp only at h1
+    split at h1
+    · cases h1
+    · cases h1; rfl
+  unfold Bank.burnRaw at h2
+  obtain ⟨cs1, hn1, h2⟩ := bind_ok.mp h2
+  have := normalizeCoins_ok hn1; subst this
+  obtain ⟨s1, s2⟩ := subFold_bal _ h2 d
+  unfold Bank.mintRaw at h
+  obtain ⟨cs2, hn2, h⟩ := bind_ok.mp h
+  have := normalizeCoins_ok hn2; subst this
+  simp only [pure_ok] at h
+  subst h
+  obtain ⟨a1, a2⟩ := addFold_bal (a := to) (cs.filter (·.amount ≠ 0)) b2 d
+  rw [coinsOf_filter_nonzero] at s1 a1
+  rw [hb1] at s1 s2
+  refine ⟨?_, ?_, ?_⟩
+  · rw [a2 frm hne]; exact s1
+  · rw [a1, s2 to (fun e => hne e.symm)]
+  · intro a h1 h2
+    rw [a2 a h2, s2 a h1]
+
+
+/-- configuration / ownership messages move nothing.
+
+    PARTIAL: the original statement `config_conserves` (without `hids`) is false on states with
+    duplicate pool identifiers: `savePool` overwrites *every* pool carrying the identifier with the
+    toggled copy of the first one.  With two pools "a" holding `[x:1,y:1]` and `[x:5,y:5]`,
+    `updateConfig none none none (some ⟨"a", some false, none, none⟩)` succeeds (`#eval`) and leaves
+    both pools with `[x:1,y:1]`: the reserves of `x` drop from 6 to 2.  Unique identifiers (`hids`,
+    the first half of `WF`) is the minimal extra hypothesis. -/
+theorem config_conserves_partial {s s' : PmState} {env : PmEnv} {sender : Addr} {funds : List Coin}
+    {m : PmMsg} {r : Response}
+    (hids : (s.pools.map (·.id)).Nodup)
+    (hm : (∃ fc fm fee t, m = .updateConfig fc fm fee t) ∨ (∃ a, m = .updateOwnership a))
+    (h : pmExecute s env sender funds m = .ok (s', r)) :
+    funds = [] ∧ r.msgs = [] ∧ ∀ d, reserves s' d = reserves s d := by
+  obtain ⟨hf, hr, -, hpools⟩ := pmExecute_config_ok hm h
+  refine ⟨hf, hr, ?_⟩
+  intro d
+  rcases hpools with hp | ⟨pid, p, st, hp, hpools⟩
+  · unfold reserves; rw [hp]
+  · have := reserves_savePool (p' := { p with status := st }) hids hp rfl d
+    have h2 : reserves s' d = reserves (s.savePool { p with status := st }) d := by
+      unfold reserves; rw [hpools]
+    rw [h2]
+    simp only at this
+    omega
+
+
+/-! ### pool creation fees -/
+
+theorem insertCoin_fresh_mem {c : Coin} {xs r : List Coin} (hc : c.denom ∉ xs.map (·.denom))
+    (h : insertCoin c xs = .ok r) : ∀ g, g ∈ r ↔ g = c ∨ g ∈ xs := by
+  induction xs generalizing r with
+  | nil =>
+    simp only [insertCoin, pure_ok] at h
+    subst h
+    simp
+  | cons x xs ih =>
+    simp only [List.map_cons, List.mem_cons, not_or] at hc
+    unfold insertCoin at h
+    have hne : (c.denom == x.denom) = false := by simpa using hc.1
+    simp only [hne, Bool.false_eq_true, ↓reduceIte] at h
+    split at h
+    · simp only [pure_ok] at h
+      subst h
+      simp
+    · obtain ⟨r', hr', h⟩ := bind_ok.mp h
+      simp only [pure_ok] at h
+      subst h
+      intro g
+      simp only [List.mem_cons, ih hc.2 hr' g]
+      constructor
+      · rintro (h | h | h)
+        · exact Or.inr (Or.inl h)
+        · exact Or.inl h
+        · exact Or.inr (Or.inr h)
+      · rintro (h | h | h)
+        · exact Or.inr (Or.inl h)
+        · exact Or.inl h
+        · exact Or.inr (Or.inr h)
+
+theorem aggregateCoins_mem {cs r : List Coin} (hnd : (cs.map (·.denom)).Nodup)
+    (h : aggregateCoins cs = .ok r) : ∀ g, g ∈ cs → g ∈ r := by
+  have key : ∀ (cs acc r : List Coin), (cs.map (·.denom)).Nodup →
+      (∀ c ∈ cs, c.denom ∉ acc.map (·.denom)) →
+      cs.foldlM (fun acc c => insertCoin c acc) acc = .ok r → ∀ g, (g ∈ cs ∨ g ∈ acc) → g ∈ r := by
+    intro cs
+    induction cs with
+    | nil =>
+      intro acc r _ _ h g hg
+      simp only [List.foldlM_nil, pure_ok] at h
+      subst h
+      simpa using hg
+    | cons c cs ih =>
+      intro acc r hnd hacc h g hg
+      simp only [List.foldlM_cons] at h
+      obtain ⟨a1, ha1, h⟩ := bind_ok.mp h
+      simp only [List.map_cons, List.nodup_cons] at hnd
+      have hfr := hacc c (List.mem_cons_self ..)
+      have hmem := insertCoin_fresh_mem hfr ha1
+      have hden := (insertCoin_fresh hfr ha1).2
+      apply ih a1 r hnd.2 ?_ h g
+      · rcases hg with hg | hg
+        · rcases List.mem_cons.mp hg with rfl | hg
+          · exact Or.inr ((hmem _).mpr (Or.inl rfl))
+          · exact Or.inl hg
+        · exact Or.inr ((hmem _).mpr (Or.inr hg))
+      · intro c' hc'
+        rw [hden]
+        rintro (h | h)
+        · exact hnd.1 (h ▸ List.mem_map_of_mem hc')
+        · exact hacc c' (List.mem_cons_of_mem _ hc') h
+  intro g hg
+  exact key cs [] r hnd (by simp) h g (Or.inl hg)
+
+theorem coinsOf_eq_zero {cs : List Coin} {d : Denom} (h : ∀ g ∈ cs, g.denom ≠ d) : coinsOf cs d = 0 := by
+  induction cs with
+  | nil => rfl
+  | cons c cs ih =>
+    rw [coinsOf_cons, ih (fun g hg => h g (List.mem_cons_of_mem _ hg))]
+    have : (c.denom == d) = false := by simpa using h c (List.mem_cons_self ..)
+    simp [amt, this]
+
+theorem coinsOf_of_mem {cs : List Coin} {g : Coin} (hnd : (cs.map (·.denom)).Nodup) (hg : g ∈ cs) :
+    coinsOf cs g.denom = g.amount := by
+  induction cs with
+  | nil => cases hg
+  | cons c cs ih =>
+    simp only [List.map_cons, List.nodup_cons] at hnd
+    rw [coinsOf_cons]
+    rcases List.mem_cons.mp hg with rfl | hg
+    · rw [coinsOf_eq_zero]
+      · simp [amt]
+      · intro g' hg' he
+        exact hnd.1 (he ▸ List.mem_map_of_mem hg')
+    · rw [ih hnd.2 hg]
+      have : (c.denom == g.denom) = false := by
+        simp only [beq_eq_false_iff_ne, ne_eq]
+        intro he
+        exact hnd.1 (he ▸ List.mem_map_of_mem hg)
+      simp [amt, this]
+
+theorem paidAmount_eq (cs : List Coin) (e : Denom) :
+    paidAmount cs e = if coinsOf cs e ≤ U128_MAX then coinsOf cs e else 0 := by
+  unfold paidAmount coinsOf sumNat
+  simp only [List.foldl_map]
+
+theorem feeMapM_ok {agg : List Coin} (fs : List Coin) {rest : List Coin}
+    (h : fs.mapM (fun f => if paidAmount agg f.denom = f.amount then pure (⟨f.denom, f.amount⟩ : Coin)
+      else (.error .payment : R Coin)) = .ok rest) :
+    rest = fs ∧ ∀ f ∈ fs, paidAmount agg f.denom = f.amount := by
+  induction fs generalizing rest with
+  | nil =>
+    simp only [List.mapM_nil, pure_ok] at h
+    subst h; simp
+  | cons f fs ih =>
+    simp only [List.mapM_cons, ↓bind_ok, pure_ok] at h
+    obtain ⟨x, hx, xs, hxs, rfl⟩ := h
+    obtain ⟨rfl, hall⟩ := ih hxs
+    split at hx
+    · rename_i hp
+      simp only [pure_ok] at hx
+      subst hx
+      exact ⟨rfl, by
+        intro f' hf'
+        rcases List.mem_cons.mp hf' with rfl | hf'
+        · exact hp
+        · exact hall f' hf'⟩
+    · cases hx
+
+
+theorem ite_err_ok2 {β : Type} {c : Prop} [Decidable c] {e : Err} {b : R β} {y : β} :
+    ((if c then (Except.error e : R β) else b) = .ok y) = (¬ c ∧ b = .ok y) := by
+  split <;> simp_all
+
+theorem validateFeesArePaid_ok {cf : Coin} {tf funds totalFees : List Coin}
+    (h : validateFeesArePaid cf tf funds = .ok totalFees) :
+    ∃ agg, aggregateCoins funds = .ok agg ∧
+      paidAmount agg cf.denom =
+        (match tf.find? (·.denom == cf.denom) with
+          | some f => if f.amount + cf.amount ≤ U128_MAX then f.amount + cf.amount else 0
+          | none => cf.amount) ∧
+      (∀ f ∈ tf.filter (·.denom != cf.denom), paidAmount agg f.denom = f.amount) ∧
+      totalFees = ⟨cf.denom, paidAmount agg cf.denom⟩ :: tf.filter (·.denom != cf.denom) := by
+  unfold validateFeesArePaid at h
+  obtain ⟨agg, hagg, h⟩ := bind_ok.mp h
+  simp only [ite_err_ok2] at h
+  obtain ⟨hpaid, h⟩ := h
+  obtain ⟨rest, hrest, h⟩ := bind_ok.mp h
+  simp only [pure_ok] at h
+  obtain ⟨rfl, hall⟩ := feeMapM_ok _ hrest
+  exact ⟨agg, hagg, Decidable.not_not.mp hpaid, hall, h⟩
+
+theorem validateNoAdditionalFunds_ok {funds totalFees : List Coin} {u : Unit}
+    (h : validateNoAdditionalFunds funds totalFees = .ok u) :
+    ∃ agg, aggregateCoins funds = .ok agg ∧
+      ∀ g ∈ agg, ∃ t ∈ totalFees, t.denom = g.denom ∧ t.amount = g.amount := by
+  unfold validateNoAdditionalFunds at h
+  obtain ⟨agg, hagg, h⟩ := bind_ok.mp h
+  split at h
+  · cases h
+  · rename_i hany
+    refine ⟨agg, hagg, ?_⟩
+    intro g hg
+    simp only [List.any_eq_true, Bool.not_eq_true', not_exists, not_and, Bool.not_eq_true, Bool.not_eq_false',
+      Bool.and_eq_true, beq_iff_eq, Bool.not_eq_eq_eq_not, Bool.not_true, Bool.not_false] at hany
+    have := hany g hg
+    simpa [List.any_eq_true] using this
+
+
+theorem coinsOf_zero_map (ds : List Denom) (d : Denom) :
+    coinsOf (ds.map fun x => (⟨x, 0⟩ : Coin)) d = 0 := by
+  induction ds with
+  | nil => rfl
+  | cons x xs ih => rw [List.map_cons, coinsOf_cons, ih]; simp [amt]
+
+theorem outflow_optSend' (self : Addr) (tf : List Coin) (to : Addr) (c : Coin) (d : Denom) :
+    outflow self tf ((if c.amount ≠ 0 then [Msg.bankSend to [c]] else []).map (fun m => ({ msg := m } : SubMsg))) d
+      = amt c d := by
+  by_cases h : c.amount = 0
+  · simp [h, amt]
+  · simp [h, outflow, coinsOf_singleton]
+
+/-- the fee arithmetic of pool creation: what is forwarded (creation fee) plus what the token
+    factory consumes equals what was sent -/
+theorem fees_balance {cf : Coin} {tf funds totalFees : List Coin} {u : Unit}
+    (htf : (tf.map (·.denom)).Nodup) (hfunds : (funds.map (·.denom)).Nodup)
+    (hov : ∀ f ∈ tf, f.denom = cf.denom → f.amount + cf.amount ≤ U128_MAX)
+    (hfees : validateFeesArePaid cf tf funds = .ok totalFees)
+    (hnoadd : validateNoAdditionalFunds funds totalFees = .ok u) (d : Denom) :
+    amt cf d + coinsOf tf d = coinsOf funds d := by
+  obtain ⟨agg, hagg, hpaid, hrest, rfl⟩ := validateFeesArePaid_ok hfees
+  obtain ⟨agg', hagg', hall⟩ := validateNoAdditionalFunds_ok hnoadd
+  rw [hagg] at hagg'; cases hagg'
+  have hS : ∀ e, coinsOf agg e = coinsOf funds e := aggregateCoins_coins hagg
+  have hmem := aggregateCoins_mem hfunds hagg
+  have hT : ∀ f ∈ tf, coinsOf tf f.denom = f.amount := fun f hf => coinsOf_of_mem htf hf
+  by_cases hex : ∃ g ∈ funds, g.denom = d
+  · obtain ⟨g, hg, rfl⟩ := hex
+    rw [coinsOf_of_mem hfunds hg]
+    obtain ⟨t, ht, htd, hta⟩ := hall g (hmem g hg)
+    rcases List.mem_cons.mp ht with rfl | ht
+    · simp only at htd hta
+      rw [hpaid] at hta
+      have hamt : amt cf g.denom = cf.amount := by simp [amt, htd]
+      cases hfind : tf.find? (·.denom == cf.denom) with
+      | none =>
+        rw [hfind] at hta
+        simp only at hta
+        have : coinsOf tf g.denom = 0 := coinsOf_eq_zero (by
+          intro f hf he
+          have := List.find?_eq_none.mp hfind f hf
+          simp only [beq_iff_eq] at this
+          exact this (he.trans htd.symm))
+        omega
+      | some f =>
+        rw [hfind] at hta
+        simp only at hta
+        have hfm := List.mem_of_find?_eq_some hfind
+        have hfd : f.denom = cf.denom := by simpa using List.find?_some hfind
+        rw [if_pos (hov f hfm hfd)] at hta
+        have := hT f hfm
+        rw [hfd, htd] at this
+        omega
+    · obtain ⟨htm, htne⟩ := List.mem_filter.mp ht
+      have htne' : t.denom ≠ cf.denom := by simpa using htne
+      have := hT t htm
+      rw [htd] at this
+      have hamt : amt cf g.denom = 0 := by
+        have : (cf.denom == g.denom) = false := by
+          simp only [beq_eq_false_iff_ne, ne_eq]
+          intro e
+          exact htne' (htd.trans e.symm)
+        simp [amt, this]
+      omega
+  · have h0 : coinsOf funds d = 0 := coinsOf_eq_zero (by intro g hg he; exact hex ⟨g, hg, he⟩)
+    rw [h0]
+    have hS0 : ∀ e, e = d → paidAmount agg e = 0 := by
+      intro e he
+      rw [paidAmount_eq, hS, he, h0]
+      simp
+    by_cases hd : cf.denom = d
+    · have hp0 := hS0 _ hd
+      rw [hpaid] at hp0
+      have hamt : amt cf d = cf.amount := by simp [amt, hd]
+      cases hfind : tf.find? (·.denom == cf.denom) with
+      | none =>
+        rw [hfind] at hp0
+        simp only at hp0
+        have : coinsOf tf d = 0 := coinsOf_eq_zero (by
+          intro f hf he
+          have := List.find?_eq_none.mp hfind f hf
+          simp only [beq_iff_eq] at this
+          exact this (he.trans hd.symm))
+        omega
+      | some f =>
+        rw [hfind] at hp0
+        simp only at hp0
+        have hfm := List.mem_of_find?_eq_some hfind
+        have hfd : f.denom = cf.denom := by simpa using List.find?_some hfind
+        rw [if_pos (hov f hfm hfd)] at hp0
+        have := hT f hfm
+        rw [hfd, hd] at this
+        omega
+    · have hamt : amt cf d = 0 := by
+        have : (cf.denom == d) = false := by simpa using hd
+        simp [amt, this]
+      by_cases hf : ∃ f ∈ tf, f.denom = d
+      · obtain ⟨f, hf, rfl⟩ := hf
+        have hfil : f ∈ tf.filter (·.denom != cf.denom) := by
+          rw [List.mem_filter]
+          exact ⟨hf, by simpa using fun e => hd e.symm⟩
+        have h1 := hrest f hfil
+        rw [hS0 _ rfl] at h1
+        have := hT f hf
+        omega
+      · have : coinsOf tf d = 0 := coinsOf_eq_zero (by intro f hf' he; exact hf ⟨f, hf', he⟩)
+        omega
+
+/-- pool creation keeps nothing: the creation fee is forwarded, the token-factory fee is consumed.
+
+    PARTIAL: the original statement `create_pool_conserves` (without `hov`) is false.  When a
+    token-factory fee has the creation fee's denom and the two amounts overflow `u128`,
+    `validate_fees_are_paid` computes the total as `checked_add(..).unwrap_or(0) = 0`, so the pool is
+    created with no funds while the handler still emits the `BankMsg::Send` of the creation fee:
+    `creationFee = ⟨"u", U128_MAX⟩`, `tfFees = [⟨"u", 1⟩]`, `funds = []`,
+    `createPool … ["x","y"] [6,6] ⟨0,0,0,[]⟩ .cp none` succeeds (`#eval`) with messages
+    `[bankSend "fc" [⟨"u", U128_MAX⟩], tfCreateDenom "p.1.LP"]`, i.e. outflow "u" = U128_MAX + 1 ≠ 0.
+    `hov` (no such overflow) is the minimal extra hypothesis. -/
+theorem create_pool_conserves_partial {s s' : PmState} {env : PmEnv} {funds : List Coin}
+    {denoms : List Denom} {decimals : List Nat} {fees : PoolFee} {pt : PoolType} {id : Option String}
+    {r : Response}
+    (hwf : WF s) (htf : (env.tfFees.map (·.denom)).Nodup) (hfunds : (funds.map (·.denom)).Nodup)
+    (hov : ∀ f ∈ env.tfFees, f.denom = s.config.creationFee.denom →
+      f.amount + s.config.creationFee.amount ≤ U128_MAX)
+    (h : createPool s env funds denoms decimals fees pt id = .ok (s', r)) :
+    ∀ d, reserves s' d = reserves s d ∧ outflow env.self env.tfFees r.msgs d = coinsOf funds d := by
+  obtain ⟨counter, pool, lpSym, totalFees, hfees, hnoadd, hassets, hnew, rfl, hmsgs⟩ := createPool_ok h
+  intro d
+  constructor
+  · have := reserves_savePool_new (s := { s with counter := counter }) hnew d
+    rw [this, hassets, coinsOf_zero_map]
+    rfl
+  · rw [hmsgs, List.map_append, outflow_append, outflow_optSend']
+    have := fees_balance htf hfunds hov hfees hnoadd d
+    simp only [List.map_cons, List.map_nil, outflow, sumNat_cons, sumNat_nil]
+    omega
+
+/-! ### counterexamples to the two statements that had to be weakened (kernel-checked) -/
+
+def cxPool (a : Nat) : PoolInfo := {
+  id := "a", denoms := ["x","y"], lpDenom := "lp", decimals := [6,6],
+  assets := [⟨"x",a⟩,⟨"y",a⟩], ptype := .cp, fees := ⟨0,0,0,[]⟩, status := {} }
+def cxEnv (tf : List Coin) : PmEnv := {
+  self := "pm", nowNs := 0, bal := fun _ _ => 0, supply := fun _ => 0, tfFees := tf,
+  validAddr := fun _ => true, fmPosition := fun _ => none }
+/-- two pools with the same identifier (not `WF`) -/
+def cxDupState : PmState := {
+  config := ⟨"fc","fm",⟨"u",0⟩⟩, pools := [cxPool 1, cxPool 5], owner := { owner := some "o" } }
+/-- creation fee + token-factory fee in the same denom overflow `u128` -/
+def cxOverflowState : PmState := {
+  config := ⟨"fc","fm",⟨"u", U128_MAX⟩⟩, pools := [], owner := { owner := some "o" } }
+
+/-- `config_conserves` without unique identifiers: a feature toggle changes the reserves 6 → 2 -/
+example : (match pmExecute cxDupState (cxEnv []) "o" []
+      (.updateConfig none none none (some ⟨"a", some false, none, none⟩)) with
+    | .ok (s', _) => some (reserves cxDupState "x", reserves s' "x")
+    | .error _ => none) = some (6, 2) := by decide
+
+/-- `create_pool_conserves` without `hov`: nothing is paid, `U128_MAX + 1` of "u" leaves -/
+example : (match createPool cxOverflowState (cxEnv [⟨"u",1⟩]) [] ["x","y"] [6,6] ⟨0,0,0,[]⟩ .cp (some "q") with
+    | .ok (_, r) => some (outflow "pm" [⟨"u",1⟩] r.msgs "u", coinsOf [] "u")
+    | .error _ => none) = some (U128_MAX + 1, 0) := by decide
 
 end MantraDex.C01
